@@ -251,7 +251,7 @@ def r4(c):
     ok = any(x.args and op_const(x.args[0]) == "AFFECTED" for x in items)
     if ok:
         x = [x for x in items if op_const(x.args[0]) == "AFFECTED"][0]
-        f = gm.formula(x, G.GuardEnv(rename=lambda s: s.replace('"', "'")))
+        f = gm.formula(x, G.GuardEnv(rename=lambda s: s.replace('"', "'")), alias=True)
         at = G.atoms(f)
         ok = any("REMOVED" in a for a in at) and any("intersection" in a for a in at) and any("'vlan'" in a for a in at)
     c.check("C11.R4", ok, repo.loc(m, fn), "huawei.vlan_diff/demote-removed", "a removed `vlan N` that stays in `vlan batch` is not demoted to AFFECTED", key_text="demote")
